@@ -84,7 +84,7 @@ fn two_arg_q(lp: u8, lq: u8, kl: bool) {
 fn c10_cross_entropy_q_c_f() {
     two_arg_q(0, 1, false);
 }
-//@ prop=C10,C20 tier=quick mem=6 timeout=2400 uses=Q inst="kl_divergence on ArrayView2<Q> 2x2, p stepped, q both axes reversed" bounds="p entries in {0, 1/4, 1/2, 1, 2, NaN}, q likewise; unwind 20"
+//@ prop=C10,C20:thorough tier=quick mem=6 timeout=2400 uses=Q inst="kl_divergence on ArrayView2<Q> 2x2, p stepped, q both axes reversed" bounds="p entries in {0, 1/4, 1/2, 1, 2, NaN}, q likewise; unwind 20"
 #[kani::proof]
 #[kani::unwind(20)]
 fn c10_kl_q_step_rev() {
